@@ -473,6 +473,27 @@ def run_affine(case, r):
         iso.isometry = True
         iso.set_parameters_as_vector(np.array(list(t0) + list(angles)))
         r.check(np.array_equal(iso.call_array(batch), want), cell("set_parameters"), "isometry vector form [translation, angles] gives the same map with scaling 1")
+    # other spellings of the same parameter values (Python / NumPy integers, float32, tuples,
+    # integer arrays) describe the same map and the same inverse
+    if float(s).is_integer():
+        t_int = np.round(t0).astype(int)
+        ref_int = darsia.AffineTransformation(dim)
+        ref_int.set_parameters(translation=t_int.astype(float), scaling=float(s), rotation=list(angles))
+        w_f, w_i = ref_int.call_array(batch), ref_int.inverse_array(batch)
+        for name, sv, tv in (
+            ("python-int", int(s), [int(v) for v in t_int]),
+            ("numpy-int64", np.int64(s), t_int.astype(np.int64)),
+            ("numpy-int32", np.int32(s), tuple(int(v) for v in t_int)),
+            ("float32", np.float32(s), t_int.astype(np.float32)),
+        ):
+            sp = darsia.AffineTransformation(dim)
+            try:
+                sp.set_parameters(translation=tv, scaling=sv, rotation=list(angles))
+                g_f, g_i = sp.call_array(batch), sp.inverse_array(batch)
+                okp = np.allclose(g_f, w_f, rtol=1e-6 if name == "float32" else 1e-15, atol=1e-6 if name == "float32" else 1e-15) and np.allclose(g_i, w_i, rtol=1e-6 if name == "float32" else 1e-15, atol=1e-6 if name == "float32" else 1e-15)
+                r.check(okp, cell("parameter-spelling"), "integer-valued parameters given as Python / NumPy integers or float32 describe the same map and inverse as the float spelling", spelling=name, scaling=s, forward=g_f, want_forward=w_f, inverse=g_i, want_inverse=w_i)
+            except Exception as e:  # noqa: BLE001
+                r.fail(cell("parameter-spelling"), "integer-valued parameters given as Python / NumPy integers or float32 are accepted", spelling=name, scaling=s, exception=f"{type(e).__name__}: {e}"[:300])
     # re-setting parameters on a used object leaves no trace of the old ones
     reuse = darsia.AffineTransformation(dim)
     reuse.set_parameters(translation=np.full(dim, 7.0), scaling=4.0, rotation=[0.7] * len(angles))
@@ -734,17 +755,25 @@ def run_corr(case, r):
 
         # ---- explicit-state search over (correction, A, B)
         ops = [("A", False), ("B", False), ("arr", False)]
+        if api == "TC":
+            # the same data stored column-major (transposed views, Fortran-ordered readers), through the
+            # call with overwrite and through correct_array directly
+            ops += [("arrF", True), ("carrF", False)]
         if api == "TC" and sysv == "same":
             ops.insert(1, ("A", True))
         if api == "CT":
             ops = [("A", False), ("B", False)]
 
         def step(state, op):
-            img = state["A"] if op[0] in ("A", "arr") else state["B"]
+            img = state["A"] if op[0] in ("A", "arr", "arrF", "carrF") else state["B"]
             before = img.img.copy()
             meta_before = img.metadata()
             if op[0] == "arr":
                 out = state["corr"](img.img)
+            elif op[0] == "arrF":
+                out = state["corr"](np.asfortranarray(img.img.copy()), overwrite=op[1])
+            elif op[0] == "carrF":
+                out = state["corr"].correct_array(np.asfortranarray(img.img.copy()))
             elif api == "CT":
                 out = state["corr"](img)
             else:
@@ -754,10 +783,10 @@ def run_corr(case, r):
         def verify(hist, op, img, before, meta_before, out):
             want = apply_map(before, dst.shape, dsts, srcs)
             got = out if isinstance(out, np.ndarray) else getattr(out, "img", None)
-            ok_type = isinstance(out, np.ndarray) if op[0] == "arr" else isinstance(out, darsia.Image)
+            ok_type = isinstance(out, np.ndarray) if op[0] in ("arr", "arrF", "carrF") else isinstance(out, darsia.Image)
             good = ok_type and got is not None and got.shape == want.shape and np.array_equal(got, want)
             r.check(good, cell, "output array == the input moved by the map (zero-filled), exactly; also on a re-used object", map=mp, history=hist, shape=shape, payload=payload, system=sysv, got=got, want=want)
-            if op[0] != "arr" and op[1]:
+            if op[0] in ("A", "B") and op[1]:
                 r.check(out is img, cell + "/overwrite", "overwrite=True returns the image it was given")
             if api == "CT" and isinstance(out, darsia.Image):
                 mc = f"C09/correct/metadata/{apin}/{sysc}"
